@@ -55,6 +55,12 @@ where
         n += len;
     }
 
+    // A carriage return at the very end of the sequence is a line terminator without its line
+    // feed, e.g., when the input ends in the middle of a CRLF line ending.
+    if has_trailing_carriage_return {
+        buf.pop();
+    }
+
     Ok(n)
 }
 
